@@ -432,6 +432,21 @@ CaseResult serialCase(Harness& H, long k, Rng& rng, bool socket, bool moves, con
     unsigned x = (unsigned)rng.below(100);
     if (x < 42) {
       unsigned t = pickType(rng, exhaust ? 18 : (unsigned)rng.pick({8, 10, 12, 14, 16}));
+      if (!M.lost && !g_stormHappened[socket] && rng.below(3) == 0) {
+        // steer towards the "vending machine change" path: a class whose own free list is empty while a bigger chunk is free
+        unsigned first = 7 + (unsigned)rng.below(12);
+        for (unsigned i = 0; i < 12; ++i) {
+          unsigned cls = 7 + (first - 7 + i) % 12;
+          if (M.pathFor(cls) != Model::SPLIT)
+            continue;
+          for (unsigned u = 0; u < NFACT; ++u)
+            if (classOf(FACT[(u + first) % NFACT].sz) == cls) {
+              t = (u + first) % NFACT;
+              break;
+            }
+          break;
+        }
+      }
       if (P.live.size() < 40 && P.canCreate(t, false))
         P.create(t, cur);
       else {
@@ -442,6 +457,29 @@ CaseResult serialCase(Harness& H, long k, Rng& rng, bool socket, bool moves, con
     } else if (x < 72) {
       if (!P.live.empty())
         P.destroy(rng.below(P.live.size()), cur);
+    } else if (x < 76 && !M.lost && !g_stormHappened[socket]) {
+      // drain one size class (keep everything live) until its free list is empty and one more request has to
+      // split a bigger free chunk into change
+      unsigned first = 7 + (unsigned)rng.below(12);
+      for (unsigned i = 0; i < 12; ++i) {
+        unsigned cls = 7 + (first - 7 + i) % 12;
+        if (M.pathFor(cls) != Model::EXACT || M.cnt[cls] > 6)
+          continue;
+        bool bigger = false;
+        for (unsigned b = cls + 1; b < 30; ++b)
+          bigger |= M.cnt[b] > 0;
+        if (!bigger)
+          continue;
+        unsigned t = NFACT;
+        for (unsigned u = 0; u < NFACT; ++u)
+          if (classOf(FACT[(u + first) % NFACT].sz) == cls)
+            t = (u + first) % NFACT;
+        if (t == NFACT)
+          continue;
+        for (unsigned n = M.cnt[cls] + 1 + (unsigned)rng.below(2); n > 0 && P.live.size() < 48 && P.canCreate(t, false); --n)
+          P.create(t, cur);
+        break;
+      }
     } else if (x < 80) {
       P.checkAll("quiescent");
     } else if (x < 88 && moves) {
